@@ -36,6 +36,16 @@ def mentions(sym, is_target, depth=0) -> bool:
     return any(mentions(a, is_target, depth + 1) for a in sym[1:] if isinstance(a, tuple))
 
 
+def _has_opaque(sym, depth: int = 0) -> bool:
+    if not isinstance(sym, tuple) or not sym or depth > 90:
+        return False
+    if sym[0] in ("rd", "elem", "opq"):
+        return True
+    if sym[0] in ("const", "param", "lenterm", "len", "idx", "in"):
+        return False
+    return any(_has_opaque(a, depth + 1) for a in sym[1:] if isinstance(a, tuple))
+
+
 def mono(sym, is_target: Callable, sign_of: Callable, depth: int = 0) -> str:
     if sym is None or not isinstance(sym, tuple) or not sym or depth > 90:
         return "?"
@@ -45,7 +55,8 @@ def mono(sym, is_target: Callable, sign_of: Callable, depth: int = 0) -> str:
     if k in ("const", "param", "lenterm", "len", "idx"):
         return "0"
     if not mentions(sym, is_target):
-        return "0" if k not in ("rd", "elem", "opq") else "?"  # a heap read / numbered local may hide a dependence
+        # no target atom in sight: constant unless the term contains a heap read / list element / numbered local, which may hide a dependence
+        return "?" if _has_opaque(sym) else "0"
     rec = lambda s: mono(s, is_target, sign_of, depth + 1)
     if k == "add":
         return combine(rec(sym[1]), rec(sym[2]))
